@@ -114,7 +114,11 @@ def run(env, rep):
             rep.count("discarded:timer-tie")
             continue
         if starved:
-            raise HarnessError("model ran out of time-out draws: " + line[:300])
+            # the model opened a CON exchange the implementation never drew a time-out for
+            rep.traces += 1
+            rep.disagree({"case": case, "line": line}, "model needs more ACK time-out draws than the "
+                         "implementation made", i[:300], what="observe server trace")
+            continue
         rep.traces += 1
         if cm != i:
             a, b = cm.split(";"), i.split(";")
@@ -126,9 +130,28 @@ def run(env, rep):
     rep.exhaustive_parts.append("boundary table of %d scripts (see RULE)" % len(table))
 
 
+def _known_keys():
+    """keys of the findings that are recorded as known (reported by ./check as KNOWN-FINDING)"""
+    import json
+    from common import VERIF
+    keys = set()
+    for fn in ("known_findings.json", os.path.join("findings", "C08.json")):
+        try:
+            data = json.load(open(os.path.join(VERIF, fn)))
+        except (OSError, ValueError):
+            continue
+        for e in (data["findings"] if isinstance(data, dict) else data):
+            if e.get("property") == "C08" and e.get("status") == "known":
+                keys.add(e["key"])
+    return keys
+
+
 def replay(env, case):
+    """re-run one recorded case on the implementation; verdicts of known findings are not what a
+    replay file was written for and are left out"""
     env.import_repo()
     res = O.run_script(case["script"])
     res["script"] = case["script"]
-    bad = oracle(res)
+    known = _known_keys()
+    bad = [(k, v) for k, v in oracle(res) if k not in known]
     return "; ".join(f"[{k}] {v}" for k, v in bad[:3])
